@@ -28,8 +28,8 @@ EST_ZERO = 100.0      # an estimate below EST_ZERO * eps*max|f|/R^k is "zero" (f
 DEFAULT_R, DEFAULT_RATIO, DEFAULT_EXTRAP, DEFAULT_MAXITER = 0.0059, 1.6, 3, 30
 EXPLORE = bool(os.environ.get('NVERIF_C17_EXPLORE'))
 
-N_SMALL = [1, 2, 3, 4, 5, 6, 7, 8, 9, 10, 12, 13, 14, 16, 18, 20]
-N_LARGE = [21, 25, 26, 30, 32, 40, 48, 51, 52, 60, 64, 70, 80, 90, 100]
+N_SMALL = [1, 2, 3, 4, 5, 6, 7, 8, 9, 10, 12, 13, 14, 15, 16, 18, 20]
+N_LARGE = [21, 25, 26, 28, 30, 32, 40, 48, 51, 52, 53, 55, 60, 64, 70, 80, 90, 100]
 
 
 def _r3(v):
@@ -81,10 +81,11 @@ INNER = ['sin', 'cos', 'inv', 'log', 'poly', 'exp']
 
 
 def _de_alias(a, b):
-    """Avoid products that are polynomials in disguise (Hypothesis likes to repeat values):
-    exp(a z) exp(-a z) = 1,  (b + z)^p (b + z)^q with p + q an integer."""
-    if a[0] == 'exp' and b[0] == 'exp' and tf.cx(a[1]) + tf.cx(b[1]) == 0:
-        b = ['exp', a[1]]
+    """Avoid products that are polynomials (or exponentials slower than the stated range of a) in
+    disguise - Hypothesis likes to repeat values: exp(a z) exp(-a z) = 1, (b + z)^p (b + z)^q with
+    p + q an integer."""
+    if a[0] == 'exp' and b[0] == 'exp' and abs(tf.cx(a[1]) + tf.cx(b[1])) < 0.3:
+        b = ['exp', a[1]]           # exp(a z) exp(b z) = exp((a + b) z): keep |a + b| in the range of a
     if a[0] == 'pow' and b[0] == 'pow' and a[1] == b[1] and float(a[2] + b[2]).is_integer():
         b = ['pow', b[1], round(b[2] + 0.25, 2)]
     return a, b
@@ -176,31 +177,40 @@ def _direction_changes(radii):
 class C17(Prop):
     id = 'C17'
     title = 'FFT Taylor coefficients are accurate within their reported error'
-    rule = ('Hypothesis draws f from {exp(a z), sin/cos(a z), 1/(b - z), log(b + z), (b + z)^p, '
-            'polynomials (degree 0..8, degenerate allowed), sums / products of two of these, '
-            'exp/sin/cos of one of these}, a real or complex with |a| in [0.32, 3.2]; z0 in the square '
-            '[-1, 1]^2 (half of them real and passed as float); poles / branch points are placed at a '
-            'drawn distance d from z0 (log-uniform in [1.5, 10] in nominal mode, [0.3, 10] otherwise; '
-            'for log / pow Re(z0 + b) > 0 so the principal branch is analytic in the whole disc). '
-            'Nominal mode (1/3): default r and max_iter, n in 1..20, non-polynomial, d >= 1.5, '
-            'step_ratio / num_extrap default (half) or drawn. General mode: n in 1..100 (two thirds '
-            '<= 20), r default or 10^U(-5, min(0, log10(d/2))), step_ratio default or U(1.2, 3), '
-            'num_extrap default or 1..5, max_iter default, 5 or 10. '
-            'Non-trivial = status clean (not degenerate, not failed) and |c_k| R^k >= 1e-6 max|f| on '
-            'the final circle for at least half of k <= n; distinct by (spec, z0, n, configuration).')
+    rule = ('Hypothesis draws f from {exp(a z), sin/cos(a z), 1/(b - z), log(b + z), (b + z)^p (p real, '
+            'non-integer), polynomials (degree 0..8, degenerate allowed), products of two of these, '
+            'exp/sin/cos of one of these, and (general mode only) sums}, a real or complex with |a| in '
+            '[0.32, 3.2]; z0 in the square [-1, 1]^2 (half of them real and passed as float); poles / '
+            'branch points are placed at a drawn distance d from z0 (log-uniform in [1.5, 10] in nominal '
+            'mode, [0.3, 10] otherwise; for log / pow Re(z0 + b) > 0 so the principal branch numpy '
+            'evaluates is analytic in the whole disc |z - z0| < d). Nominal mode (1/3): every default '
+            '(r = 0.0059, step_ratio 1.6, num_extrap 3, max_iter 30), n in 1..20, non-polynomial, d >= '
+            '1.5. General mode: n in 1..100 (two thirds <= 20; the table boundaries 6/7, 12/13, 25/26, '
+            '51/52 included), r default or 10^U(-5, min(0, log10(d/2))), step_ratio default or U(1.2, 3), '
+            'num_extrap default or 1..5, max_iter default, 5 or 10. The callable counts the circles it '
+            'is evaluated on. Non-trivial = status clean (not degenerate, not failed) and '
+            '|c_k| R^k >= 1e-6 max|f| on the final circle for at least half of k <= n (the coefficients '
+            'are resolvable); distinct by (spec, z0, n, configuration).')
     assumptions = (
         'mpmath at 60 digits evaluates the closed-form coefficients and the jet recurrences exactly '
         'enough (cross-checked against mpmath.taylor at 80 digits during development)',
         'max|f| on the final circle is bounded by 1.5 x the maximum over 256 equispaced points '
         '(evaluated with numpy, the callable the user wrote)',
         'K and kappa are calibrated constants (>= 10x above the worst ratio of the unchanged tree '
-        'over the 8 calibration seeds once the known defect classes are set aside)',
+        'over the 8 calibration seeds once the known defect classes are set aside; the floor is the '
+        'one of the property text, on the *final* circle, although the returned coefficient may stem '
+        'from an earlier, smaller circle - this is why kappa is as large as 1e7)',
         '"iteration cap reached" is observed as: the function was evaluated on max_iter circles '
-        '(counted by the callable itself), independent of info.iterations (which is the 0-based '
-        'loop index, i.e. one less than the number of circles)')
+        '(counted by the callable itself). Asserted: failed => max_iter circles and '
+        'info.iterations == max_iter - 1 (info.iterations is the 0-based loop index); fewer than '
+        'max_iter circles => not failed. "Converged on the very last allowed iteration" (max_iter '
+        'circles, failed False) is legal and counted',
+        'the never-degenerate-or-failed clause is asserted for the all-default configuration only '
+        '(with step_ratio 1.2 the 30 iterations cannot reach a useful radius from 0.0059); sums and '
+        'polynomials in disguise (recognised from the exact coefficients) are counted, not asserted')
     constants = {'K_EST': K_EST, 'KAPPA': KAPPA, 'SAFETY_MAXF': SAFETY_MAXF, 'REL_DERIV': REL_DERIV,
                  'EST_ZERO': EST_ZERO}
-    examples = {'quick': 300, 'thorough': 15000}
+    examples = {'quick': 300, 'thorough': 4000}
 
     def strategy(self, tier):
         return c17_case()
@@ -343,6 +353,7 @@ class C17(Prop):
             return
         resolvable = 0
         worst = (-1.0, None)
+        rows, bad = [], []
         for k in range(n + 1):
             ck = complex(exact[k])
             err = float(abs(mp.mpc(complex(coefs[k])) - exact[k])) if np.isfinite(coefs[k]) else math.inf
@@ -352,22 +363,28 @@ class C17(Prop):
             ratio = err / tol if tol > 0 else (0.0 if err == 0 else math.inf)
             if abs(ck) * R ** k >= 1e-6 * maxf / SAFETY_MAXF:
                 resolvable += 1
+            rows.append((k, ck, err, floor, e, ratio))
             if not (ratio <= 1.0):
+                bad.append(len(rows) - 1)
+        isolated = len(bad) <= max(1, (n + 1) // 8)    # F7 hits a few FFT indices; a scaling bug hits them all
+        for i, (k, ck, err, floor, e, ratio) in enumerate(rows):
+            if i in bad:
                 est_zero = bool(e <= EST_ZERO * floor)
                 garbage = bool(err >= 0.5 * abs(ck))
-                if EXPLORE and ((est_zero and garbage) or beyond):
+                if EXPLORE and (beyond or (garbage and isolated)):
                     ctx.count('EXPLORE: %s' % ('beyond-singularity inaccuracy' if beyond else
-                                               'F7 garbage k/m=%s' % _k_over_m(k, m)))
+                                               'F7 garbage k/m=%s estimate_zero=%s' % (_k_over_m(k, m), est_zero)))
                     continue
                 raise Violation(
                     'coef-accuracy',
                     '%s: coef[%d] = %r, exact %r, |err| = %.3g > %g*estimate(%.3g) + %g*eps*max|f|/R^k(%.3g); '
-                    'm = %d, final radius %.4g, nearest singularity at %s, largest circle %.4g'
+                    'm = %d, final radius %.4g, nearest singularity at %s, largest circle %.4g, '
+                    '%d of %d coefficients out of tolerance'
                     % (desc, k, complex(coefs[k]), ck, err, K_EST, e, KAPPA, floor, m, R,
-                       'inf' if math.isinf(d) else '%.4g' % d, max(radii)),
+                       'inf' if math.isinf(d) else '%.4g' % d, max(radii), len(bad), n + 1),
                     k=k, m=m, err=err, estimate=e, floor=floor, estimate_zero=est_zero,
                     k_over_m=_k_over_m(k, m), beyond_singularity=beyond, garbage=garbage,
-                    coef_is_zero=bool(coefs[k] == 0))
+                    coef_is_zero=bool(coefs[k] == 0), isolated=isolated, n_bad=len(bad))
             if EXPLORE and beyond:
                 continue
             summ = dict(call=desc, k=k, err=err, estimate=e, floor=floor)
@@ -395,7 +412,7 @@ class C17(Prop):
             key['n'] = case.get('n')
             key['default_r'] = case.get('r') is None
         for name in ('estimate_zero', 'k_over_m', 'beyond_singularity', 'garbage', 'all_default', 'failed',
-                     'degenerate', 'entire', 'direction_changes', 'field', 'coef_is_zero'):
+                     'degenerate', 'entire', 'direction_changes', 'field', 'coef_is_zero', 'isolated'):
             if name in violation.details:
                 key[name] = violation.details[name]
         return key
